@@ -63,7 +63,9 @@ def concrete(sym, r, name=None):
         return dict(op="write_exec_d", name=name, programs=[[p, p] for p in progs])
     if sym == "wf":
         files = [[r.choice(["data.txt", "bin/tool", "lib/libx.so", "deep/er/file", "env.build.txt"]), hx(b"content-%d" % r.randrange(1000))] for _ in range(r.randint(1, 3))]
-        return dict(op="fs_write", name=name, files=files)
+        # symbolic links inside the layer (to a file, to a directory, dangling, relative upwards): legal layer content
+        links = [[r.choice(["current", "bin/tool-link", "deep/er/link", "dangling"]), r.choice(["data.txt", ".", "no/such/target", "../bin", "deep"])] for _ in range(r.choice([0, 0, 1, 2]))]
+        return dict(op="fs_write", name=name, files=files, links=links)
     if sym == "R":
         return dict(op="restore")
     raise AssertionError(sym)
@@ -168,7 +170,8 @@ def check_others(pre, post, names, target, sh, case, what):
             continue
         a, b = layersim.view(pre, nm), layersim.view(post, nm)
         if a != b:
-            diff = vp.snap_diff({k: v for k, v in pre.items() if k.split(b"/")[0].startswith(nm.encode())}, {k: v for k, v in post.items() if k.split(b"/")[0].startswith(nm.encode())})
+            own = layersim.owned_keys([nm])
+            diff = vp.snap_diff({k: v for k, v in pre.items() if k.split(b"/")[0] in own}, {k: v for k, v in post.items() if k.split(b"/")[0] in own})
             sh.violation("other-layer-touched", "%s on layer %r changed layer %r: %s" % (what, target, nm, diff), case)
             return False
     stray = layersim.stray_entries(post, names)
@@ -321,10 +324,10 @@ def judge_write(step, rep, pre, post, names, src_dir, sh, case):
             return False
         return True
     if op == "write_exec_d":
-        want = {b"exec.d/" + p.encode(): open(os.path.join(src_dir, s), "rb").read() for p, s in step["programs"]}
-        got = {k: e[2] for k, e in v1["dir"].items() if k.startswith(b"exec.d/") and e[0] == "f"}
+        want = {b"exec.d/" + p.encode(): (os.stat(os.path.join(src_dir, s)).st_mode & 0o7777, open(os.path.join(src_dir, s), "rb").read()) for p, s in step["programs"]}
+        got = {k: (e[1], e[2]) for k, e in v1["dir"].items() if k.startswith(b"exec.d/") and e[0] == "f"}
         if got != want or ((b"exec.d" in v1["dir"]) != bool(want)):
-            sh.violation("write:execd", "%s: exec.d on disk %r, expected %r" % (what, sorted(got), sorted(want)), case)
+            sh.violation("write:execd", "%s: exec.d on disk %r, expected %r (name: mode; content compared too)" % (what, sorted((k, oct(v[0])) for k, v in got.items()), sorted((k, oct(v[0])) for k, v in want.items())), case)
             return False
         rest0 = {k: e for k, e in v0["dir"].items() if not k.startswith(b"exec.d")}
         rest1 = {k: e for k, e in v1["dir"].items() if not k.startswith(b"exec.d")}
@@ -377,8 +380,8 @@ def run_history(mon, base, hid, steps, names, sh, snapshots_out=None):
     for p in ("p1", "p2", "p3"):
         with open(os.path.join(src, p), "wb") as f:
             f.write(b"#!/bin/sh\necho " + p.encode() + b"\n")
-        os.chmod(os.path.join(src, p), 0o755)
-    case = {"steps": jsonable(steps), "names": names, "_layers": layers}
+        os.chmod(os.path.join(src, p), {"p1": 0o755, "p2": 0o775, "p3": 0o700}[p])
+    case = {"steps": jsonable(steps), "names": names, "_layers": layers, "umask": getattr(mon, "umask", 0o022)}
     try:
         mon.call({"op": "init", "layers_dir": layers, "app_dir": os.path.join(root, "app"), "bp_dir": os.path.join(root, "bp")})
         alive = set()
@@ -399,8 +402,17 @@ def run_history(mon, base, hid, steps, names, sh, snapshots_out=None):
                 for rel, h in step["files"]:
                     p = os.path.join(layers, step["name"], rel)
                     os.makedirs(os.path.dirname(p), exist_ok=True)
+                    if os.path.islink(p) or os.path.isdir(p):
+                        continue
                     with open(p, "wb") as f:
                         f.write(bytes.fromhex(h))
+                for rel, target in step.get("links", []):
+                    p = os.path.join(layers, step["name"], rel)
+                    if not os.path.isdir(os.path.dirname(p)) and os.path.lexists(os.path.dirname(p)):
+                        continue
+                    os.makedirs(os.path.dirname(p), exist_ok=True)
+                    if not os.path.lexists(p):
+                        os.symlink(target, p)
                 pre = vp.snapshot(layers)
                 continue
             if op in ("cached", "uncached"):
@@ -463,7 +475,9 @@ def random_history(r, length):
 def shard_run(arg):
     kind, items, seed, work = arg
     sh = vp.Shard()
-    mon = vp.Mon("layers")
+    um = vp.UMASKS[(items[0][0] if items else 0) % len(vp.UMASKS)]
+    sh.add("umasks", oct(um))
+    mon = vp.Mon("layers", umask=um)
     base = os.path.join(work, "w%d" % os.getpid())
     os.makedirs(base, exist_ok=True)
     try:
@@ -483,7 +497,7 @@ def shard_run(arg):
                 sh.violation("process-died:%s" % e.req.get("op"), "the process died (status %s) inside %s after the history %r" % (e.status, e.req.get("op"), [s.get("op") for s in steps]),
                              {"steps": jsonable(steps), "names": names, "died_on": e.req})
                 mon.close()
-                mon = vp.Mon("layers")
+                mon = vp.Mon("layers", umask=um)
             sh.count("histories")
     finally:
         mon.close()
@@ -517,7 +531,7 @@ def run(tier, seed, work):
 def replay(case, work):
     res = vp.Result("C01", "quick", 0, "exploration")
     sh = vp.Shard()
-    mon = vp.Mon("layers")
+    mon = vp.Mon("layers", umask=case.get("umask", 0o022))
     run_history(mon, work, "replay", unjson(case["steps"]), case["names"], sh)
     mon.close()
     sh.nontrivial.update({"replay-a", "replay-b"})
